@@ -25,27 +25,27 @@ def sequences : List (String × List FOp) := [
 def packedOverwritePublishesFirst : Bool := true
 /-- the same writes with their k-th data primitive (write / flush / fsync on the temporary file) reporting an error, for every k: what the real dump() does then -/
 def failingSequences : List (String × List FOp) := [
-  ("pickle-small-fails-at-1-write", [.mkstemp, .failed, .close, .other "unlink", .raised]),
-  ("pickle-small-fails-at-2-write", [.mkstemp, .write 2, .write 0, .failed, .close, .other "unlink", .raised]),
-  ("pickle-small-fails-at-3-flush", [.mkstemp, .write 2, .write 0, .write 32, .failed, .close, .other "unlink", .raised]),
-  ("pickle-small-fails-at-4-flush", [.mkstemp, .write 2, .write 0, .write 32, .flush, .failed, .close, .other "unlink", .raised]),
-  ("pickle-small-fails-at-5-fsync", [.mkstemp, .write 2, .write 0, .write 32, .flush, .flush, .failed, .close, .other "unlink", .raised]),
-  ("pickle-large-fails-at-1-write", [.mkstemp, .failed, .close, .other "unlink", .raised]),
-  ("pickle-large-fails-at-2-write", [.mkstemp, .write 2, .failed, .close, .other "unlink", .raised]),
-  ("pickle-large-fails-at-3-write", [.mkstemp, .write 2, .write 34926, .failed, .close, .other "unlink", .raised]),
-  ("pickle-large-fails-at-4-write", [.mkstemp, .write 2, .write 34926, .write 23276, .failed, .close, .other "unlink", .raised]),
-  ("pickle-large-fails-at-5-flush", [.mkstemp, .write 2, .write 34926, .write 23276, .write 5223, .failed, .close, .other "unlink", .raised]),
-  ("pickle-large-fails-at-6-flush", [.mkstemp, .write 2, .write 34926, .write 23276, .write 5223, .flush, .failed, .close, .other "unlink", .raised]),
-  ("pickle-large-fails-at-7-fsync", [.mkstemp, .write 2, .write 34926, .write 23276, .write 5223, .flush, .flush, .failed, .close, .other "unlink", .raised]),
+  ("pickle-small-fails-at-1-write", [.mkstemp, .failed, .raised]),
+  ("pickle-small-fails-at-2-write", [.mkstemp, .write 2, .write 0, .failed, .raised]),
+  ("pickle-small-fails-at-3-flush", [.mkstemp, .write 2, .write 0, .write 32, .failed, .raised]),
+  ("pickle-small-fails-at-4-flush", [.mkstemp, .write 2, .write 0, .write 32, .flush, .failed, .raised]),
+  ("pickle-small-fails-at-5-fsync", [.mkstemp, .write 2, .write 0, .write 32, .flush, .flush, .failed, .raised]),
+  ("pickle-large-fails-at-1-write", [.mkstemp, .failed, .raised]),
+  ("pickle-large-fails-at-2-write", [.mkstemp, .write 2, .failed, .raised]),
+  ("pickle-large-fails-at-3-write", [.mkstemp, .write 2, .write 34926, .failed, .raised]),
+  ("pickle-large-fails-at-4-write", [.mkstemp, .write 2, .write 34926, .write 23276, .failed, .raised]),
+  ("pickle-large-fails-at-5-flush", [.mkstemp, .write 2, .write 34926, .write 23276, .write 5223, .failed, .raised]),
+  ("pickle-large-fails-at-6-flush", [.mkstemp, .write 2, .write 34926, .write 23276, .write 5223, .flush, .failed, .raised]),
+  ("pickle-large-fails-at-7-fsync", [.mkstemp, .write 2, .write 34926, .write 23276, .write 5223, .flush, .flush, .failed, .raised]),
   ("array-raw-fails-at-1-write", [.mkstemp, .failed, .truncate, .write 2, .write 0, .write 0, .write 4345, .flush, .flush, .fsync, .close, .fsyncDir, .rename]),
   ("array-raw-fails-at-2-write", [.mkstemp, .write 128, .failed, .truncate, .write 2, .write 0, .write 0, .write 4345, .flush, .flush, .fsync, .close, .fsyncDir, .rename]),
   ("array-raw-fails-at-3-flush", [.mkstemp, .write 128, .write 24000, .failed, .truncate, .write 2, .write 0, .write 0, .write 4345, .flush, .flush, .fsync, .close, .fsyncDir, .rename]),
   ("array-raw-fails-at-4-fsync", [.mkstemp, .write 128, .write 24000, .flush, .failed, .truncate, .write 2, .write 0, .write 0, .write 4345, .flush, .flush, .fsync, .close, .fsyncDir, .rename]),
-  ("array-compressed-fails-at-1-write", [.mkstemp, .failed, .close, .other "unlink", .raised]),
-  ("array-compressed-fails-at-2-write", [.mkstemp, .write 2, .write 0, .write 0, .failed, .close, .other "unlink", .raised]),
-  ("array-compressed-fails-at-3-flush", [.mkstemp, .write 2, .write 0, .write 0, .write 4345, .failed, .close, .other "unlink", .raised]),
-  ("array-compressed-fails-at-4-flush", [.mkstemp, .write 2, .write 0, .write 0, .write 4345, .flush, .failed, .close, .other "unlink", .raised]),
-  ("array-compressed-fails-at-5-fsync", [.mkstemp, .write 2, .write 0, .write 0, .write 4345, .flush, .flush, .failed, .close, .other "unlink", .raised]),
+  ("array-compressed-fails-at-1-write", [.mkstemp, .failed, .raised]),
+  ("array-compressed-fails-at-2-write", [.mkstemp, .write 2, .write 0, .write 0, .failed, .raised]),
+  ("array-compressed-fails-at-3-flush", [.mkstemp, .write 2, .write 0, .write 0, .write 4345, .failed, .raised]),
+  ("array-compressed-fails-at-4-flush", [.mkstemp, .write 2, .write 0, .write 0, .write 4345, .flush, .failed, .raised]),
+  ("array-compressed-fails-at-5-fsync", [.mkstemp, .write 2, .write 0, .write 0, .write 4345, .flush, .flush, .failed, .raised]),
   ("array-object-fails-at-1-write", [.mkstemp, .failed, .truncate, .write 2, .write 0, .write 0, .write 213, .flush, .flush, .fsync, .close, .fsyncDir, .rename]),
   ("array-object-fails-at-2-write", [.mkstemp, .write 128, .failed, .truncate, .write 2, .write 0, .write 0, .write 213, .flush, .flush, .fsync, .close, .fsyncDir, .rename]),
   ("array-object-fails-at-3-flush", [.mkstemp, .write 128, .write 162, .failed, .truncate, .write 2, .write 0, .write 0, .write 213, .flush, .flush, .fsync, .close, .fsyncDir, .rename]),
